@@ -70,6 +70,7 @@ fn main() {
         ("hitobj", "c06rel") => hitobj::c06_relation(&args, &mut s),
         ("timing", "c06rel") => timing::c06_relation(&args, &mut s),
         ("timing", "order") => timing::order_replay(&args, &mut s),
+        ("timing", "shape") => timing::shape_relation(&args, &mut s),
         ("events", "replay") => events::replay(&args, &mut s),
         ("events", "record") => events::record(&args, &mut s),
         ("curve", "replay") => curve::replay(&args, &mut s),
